@@ -12,8 +12,12 @@ import (
 )
 
 // HCLExpressible reports whether the model can be written as Atlas HCL without losing anything the
-// differs look at. The community HCL codec has no spelling for PostgreSQL NO INHERIT checks.
+// differs look at. The community HCL codec has no spelling for PostgreSQL NO INHERIT checks, and this
+// package writes references as traversals, which need plain ASCII identifiers.
 func HCLExpressible(m *Model) bool {
+	if !plainNames(m) {
+		return false // names that cannot be written as an HCL traversal (column.<name>)
+	}
 	for _, t := range m.Tables {
 		for _, k := range t.Checks {
 			if k.NoInherit {
